@@ -15,6 +15,7 @@ import (
 	"bytes"
 	"encoding/json"
 	"fmt"
+	"os"
 	"reflect"
 	"sort"
 	"strconv"
@@ -58,7 +59,15 @@ func runAsync(ch *simrt.Chooser, opt Options) RunResult {
 	res := RunResult{Counters: map[string]int{}}
 	cfg := simrt.Config{MaxSteps: 2000000, KeepTrace: opt.KeepTrace}
 	// PCT (few, well-placed preemptions of an otherwise run-to-block schedule) gets a double share
-	cfg.Policy = []simrt.Policy{simrt.PolRandom, simrt.PolLowest, simrt.PolHighest, simrt.PolRoundRobin, simrt.PolPCT, simrt.PolPCT, simrt.PolStarve}[ch.Draw("policy", 7)]
+	cfg.Policy = []simrt.Policy{simrt.PolRandom, simrt.PolLowest, simrt.PolHighest, simrt.PolRoundRobin, simrt.PolPCT, simrt.PolPCT, simrt.PolStarve, simrt.PolStall, simrt.PolStall}[ch.Draw("policy", 9)]
+	cfg.StallAfterUnlockPermille = []int{30, 80, 250}[ch.Draw("stall-after-unlock-rate", 3)]
+	if v := os.Getenv("VERIF_FORCE_POLICY"); v != "" { // debugging aid
+		n, _ := strconv.Atoi(v)
+		cfg.Policy = simrt.Policy(n)
+	}
+	if cfg.Policy == simrt.PolStall && ch.Draw("stall-run-to-block", 2) == 0 {
+		cfg.SwitchPermille = 0 // otherwise run-to-block: the only preemptions are the hold-backs
+	}
 	cfg.SwitchPermille = []int{50, 200, 500, 800, 1000}[ch.Draw("switch-rate", 5)]
 	cfg.PCTDepth = 1 + ch.Draw("pct-depth", 3)
 	cfg.PCTHorizon = []int{30, 80, 200, 500}[ch.Draw("pct-horizon", 4)]
